@@ -32,11 +32,11 @@ echo "== our check against it"
 cd /repo && [ -z "$(git status --porcelain)" ] || { echo "repo dirty"; exit 9; }
 git apply $out/patch.diff || { echo "patch does not apply to /repo"; exit 9; }
 t0=$(date +%s)
-(cd /verif && ./check $prop --tier quick) > $out/check_quick.txt 2>&1; qrc=$?
+(cd /verif && VERIF_EVIDENCE_DIR=/verif/run/scratch-evidence VERIF_REPLAY_DIR=/verif/run/scratch-replays ./check $prop --tier quick) > $out/check_quick.txt 2>&1; qrc=$?
 t1=$(date +%s)
 git -C /repo checkout -- .
 # keep one replay produced against the seeded change with it, drop the rest (replays/ holds only real findings)
-mkdir -p $out/replay; f=$(ls /verif/replays/$prop/*.fail /verif/replays/$prop/*.json 2>/dev/null | head -1); [ -n "$f" ] && cp $f $out/replay/ ; find /verif/replays/$prop -type f -newer $out/patch.diff -delete 2>/dev/null
+mkdir -p $out/replay; f=$(ls /verif/run/scratch-replays/$prop/*.fail /verif/run/scratch-replays/$prop/*.json 2>/dev/null | head -1); [ -n "$f" ] && cp $f $out/replay/ ; find /verif/run/scratch-replays -type f -delete 2>/dev/null
 grep -v KNOWN $out/check_quick.txt | cut -c1-300 | tail -4
 python3 - <<PY
 import json
